@@ -460,6 +460,14 @@ func init() {
 			tknSetup()
 			_, err := tknCache.ak.Decrypt(in)
 			return Result{Accepted: err == nil}
+		},
+		// a consistently re-framed ciphertext: one of the nested fields (id, header, envelope,
+		// tag) is cut to a small size and every enclosing length prefix is rewritten to match
+		Aware: []func([]byte, int) []byte{
+			func(v []byte, a int) []byte { return tknRefit(v, "env", a) },
+			func(v []byte, a int) []byte { return tknRefit(v, "header", a) },
+			func(v []byte, a int) []byte { return tknRefit(v, "tag", a) },
+			func(v []byte, a int) []byte { return tknRefit(v, "id", a) },
 		}})
 	Register(&Entry{Name: "tkn20.Policy.ExtractFromCiphertext+CouldDecrypt", Seeds: 1, Cost: 10,
 		Valid: func(seed uint64) []byte { tknSetup(); return tknCache.ct },
@@ -541,4 +549,93 @@ func hashFor(s uint64) crypto.Hash {
 		return crypto.SHA512
 	}
 	return crypto.Hash(0)
+}
+
+// refitSizes: field sizes worth trying, dense around small powers of two and their neighbours.
+var refitSizes = []int{0, 1, 2, 3, 4, 7, 8, 9, 15, 16, 17, 31, 32, 33, 47, 48, 49, 63, 64, 65, 66, 67, 68, 69, 70, 71, 72, 73, 79, 80, 81, 127}
+
+// tknRefit parses a tkn20 ciphertext (optional version string, then little-endian
+// length-prefixed fields: id (16-bit), macData (32-bit) = header (32-bit) || envelope (32-bit),
+// tag (16-bit); the legacy format has 16-bit prefixes throughout), cuts one field to
+// refitSizes[a] bytes and rewrites the prefixes of the field and of what encloses it.
+func tknRefit(v []byte, field string, a int) []byte {
+	size := refitSizes[((a%len(refitSizes))+len(refitSizes))%len(refitSizes)]
+	le := func(b []byte, w int) int {
+		n := 0
+		for i := w - 1; i >= 0; i-- {
+			n = n<<8 | int(b[i])
+		}
+		return n
+	}
+	put := func(n, w int) []byte {
+		out := make([]byte, w)
+		for i := 0; i < w; i++ {
+			out[i] = byte(n >> (8 * i))
+		}
+		return out
+	}
+	for skip := 0; skip <= 12 && skip < len(v); skip++ {
+		for _, w := range []int{4, 2} { // width of the macData / header / envelope prefixes
+			r := v[skip:]
+			if len(r) < 2 {
+				continue
+			}
+			il := le(r, 2)
+			if 2+il+w > len(r) {
+				continue
+			}
+			id := r[2 : 2+il]
+			r2 := r[2+il:]
+			ml := le(r2, w)
+			if w+ml+2 > len(r2) {
+				continue
+			}
+			mac := r2[w : w+ml]
+			r3 := r2[w+ml:]
+			tl := le(r3, 2)
+			if 2+tl != len(r3) {
+				continue
+			}
+			tag := r3[2:]
+			if len(mac) < w {
+				continue
+			}
+			hl := le(mac, w)
+			if w+hl+w > len(mac) {
+				continue
+			}
+			hdr := mac[w : w+hl]
+			m2 := mac[w+hl:]
+			el := le(m2, w)
+			if w+el != len(m2) {
+				continue
+			}
+			env := m2[w:]
+			cut := func(b []byte) []byte {
+				if size >= len(b) {
+					return nil
+				}
+				return b[:size]
+			}
+			switch field {
+			case "env":
+				env = cut(env)
+			case "header":
+				hdr = cut(hdr)
+			case "tag":
+				tag = cut(tag)
+			case "id":
+				id = cut(id)
+			}
+			if env == nil || hdr == nil || tag == nil || id == nil {
+				return nil
+			}
+			nm := append(append(append(put(len(hdr), w), hdr...), put(len(env), w)...), env...)
+			out := append([]byte{}, v[:skip]...)
+			out = append(append(out, put(len(id), 2)...), id...)
+			out = append(append(out, put(len(nm), w)...), nm...)
+			return append(append(out, put(len(tag), 2)...), tag...)
+		}
+	}
+	return nil
 }
